@@ -1,17 +1,729 @@
-//! module `text` — streams `text.*` (not built yet).
+//! module `text` (serves C15; text parts of C02, C07, C01) — `Text` layout with `MonoTextStyle`.
+//!
+//! Streams (op lines; every result line is compared with the Lean model `EG.Model.TextLayout`):
+//!   text.layout  <fontspec> <bl> <al> <lhk> <lhv> <tc> <bg> <ul> <st> <x> <y> <cps>
+//!        -> `next=<x,y> bb=<x,y,w,h> px=<n>:<hash>:<extent>|-`
+//!        next = what `Text::draw` returns, bb = `Text::bounding_box()`, px = the pixel map left on the
+//!        draw_iter-only target R1 (number of pixels, hash, extent `x,y,w,h` or `-`), printed only when the
+//!        picture is determined by the layout alone (text colour == background colour, or neither set:
+//!        then no pixel depends on the glyph bitmaps, which are C14's topic), else `px=-`.
+//!   text.tr      <the same tokens> <dx> <dy>
+//!        -> the same for `text.translate(d)`, plus ` mut=same|diff` (`translate_mut` vs `translate`)
+//!   text.measure <fontspec> <bl> <tc> <bg> <ul> <st> <x> <y> <cps>
+//!        -> `bb=<rect> mnext=<x,y> dnext=<x,y> lh=<n>`: `measure_string` box and next position, what
+//!        `draw_string` returns, `line_height()` (all through the `TextRenderer` trait)
+//!   text.chain   <fontspec> <bl> <al> <tc> <bg> <ul> <st> <x> <y> <cps1> <cps2>
+//!        -> `n1=<x,y> n2=<x,y> n12=<x,y>`: `Text(s1).draw` returns n1, `Text(s2 at n1).draw` returns n2,
+//!        `Text(s1 + s2).draw` returns n12
+//!   fontspec: `b:<fid>` (index into the generated `FONTS` table = Lean `fontTable`) or
+//!             `c:<cw>:<ch>:<sp>:<bl>:<ulOff>:<ulH>:<stOff>:<stH>` — a font built here: mapping `"\0 ~"`
+//!             (U+0020..=U+007E, replacement index 31 = '?'), atlas 16 glyphs per row x 6 rows with a fixed
+//!             bit pattern. Custom fonts are the only ones with character spacing > 0.
+//!   bl: 0 Top, 1 Bottom, 2 Middle, 3 Alphabetic; al: 0 Left, 1 Center, 2 Right;
+//!   lhk/lhv: `p <pixels>` or `c <percent>`; tc/bg: `-` or raw Rgb565; ul/st: `n` None, `t` TextColor, else raw.
+//!   hash: h = 0; for every pixel in row-major order: h = (h * 1000003 + t mod P) mod P with
+//!         t = ((y + 2^20) * 2^21 + (x + 2^20)) * 65536 + colour + 1, P = 2^31 - 1.
+//!
+//! Oracle = the property texts as predicates on the real results (classes prefixed with the property):
+//!   C15  draw return == `measure_string(..).next_position` (per line through `draw_string`, and for the whole
+//!        text: the last line at the position the alignment rule gives); chaining (spacing 0: picture of s1 then
+//!        s2 at the returned position == picture of s1 + s2, same returned position); alignment of each line
+//!        (drawn with text + background colour so that the drawn extent is the line box): starts at x / last
+//!        column == x / |first + last - 2x| <= 1; the baseline shifts the first line's top to y - offset
+//!        (Top 0, Bottom ch-1, Middle (ch-1)/2, Alphabetic font.baseline); a text with `\n` == its segments
+//!        drawn as separate texts `line_height` apart (Pixels(p) -> p, Percent(q) -> ch*q/100), same returned
+//!        position; replacing every `\r\n` by `\n` changes neither picture nor box nor returned position.
+//!   C02  every drawn pixel inside `bounding_box()`; a transparent style draws nothing.
+//!   C07  `translate(d)`: picture, box and returned position shift by d; `translate_mut` == `translate`.
+//!   C01  R1 (draw_iter only) and R2 (native fills) end with the same picture and returned position.
+//! Observations outside the properties' quantifier (custom fonts with spacing > 0, neither text nor
+//! background colour): `draw_string` returns n*(cw+sp) past the start (one trailing spacing more than
+//! `measure_string`), and a custom-coloured decoration then extends `sp` columns beyond the box. Counted
+//! (`obs:*`), checked to be exactly that mechanism, not reported as failures.
 use crate::common::*;
+use embedded_graphics::{
+    image::ImageRaw,
+    mono_font::{mapping::StrGlyphMapping, DecorationDimensions, MonoFont, MonoTextStyle, MonoTextStyleBuilder},
+    pixelcolor::{BinaryColor, Rgb565},
+    prelude::*,
+    primitives::Rectangle,
+    text::{renderer::TextRenderer, Alignment, Baseline, DecorationColor, LineHeight, Text, TextStyle, TextStyleBuilder},
+};
+
+#[path = "font_table.rs"]
+mod font_table;
+use font_table::FONTS;
 
 pub struct M;
+
+type Style<'a> = MonoTextStyle<'a, Rgb565>;
+
+fn char_of(cp: u32) -> char {
+    char::from_u32(cp).expect("op carries a non-scalar code point")
+}
+
+/// Runs `f` with the font a fontspec token describes (`builtin` flag second).
+fn with_font<R>(spec: &str, f: impl FnOnce(&MonoFont, bool) -> R) -> Result<R, String> {
+    let fs: Vec<&str> = spec.split(':').collect();
+    match fs[0] {
+        "b" => {
+            let fid: usize = fs[1].parse().expect("fid");
+            if fid >= FONTS.len() {
+                return Err("nofont".into());
+            }
+            Ok(f(FONTS[fid].3, true))
+        }
+        "c" => {
+            let n = |i: usize| -> u32 { fs[i].parse().expect("custom font field") };
+            let (cw, ch, sp, bl, uo, uh, so, sh) = (n(1), n(2), n(3), n(4), n(5), n(6), n(7), n(8));
+            let (iw, ih) = (16 * cw, 6 * ch);
+            let bpr = ((iw + 7) / 8) as usize;
+            let mut bytes = vec![0u8; bpr * ih as usize];
+            for y in 0..ih as usize {
+                for x in 0..iw as usize {
+                    if (x * 7 + y * 3 + x * y) % 5 < 2 {
+                        bytes[y * bpr + x / 8] |= 0x80 >> (x % 8);
+                    }
+                }
+            }
+            let image = ImageRaw::<BinaryColor>::new(&bytes, Size::new(iw, ih)).map_err(|_| "badimage".to_string())?;
+            let mapping = StrGlyphMapping::new("\0 ~", 31);
+            let font = MonoFont {
+                image,
+                character_size: Size::new(cw, ch),
+                character_spacing: sp,
+                baseline: bl,
+                strikethrough: DecorationDimensions::new(so, sh),
+                underline: DecorationDimensions::new(uo, uh),
+                glyph_mapping: &mapping,
+            };
+            Ok(f(&font, false))
+        }
+        _ => Err("nofont".into()),
+    }
+}
+
+fn opt_col(s: &str) -> Option<Rgb565> {
+    if s == "-" {
+        None
+    } else {
+        Some(Rgb565::from_num(s.parse().expect("colour")))
+    }
+}
+fn deco(s: &str) -> DecorationColor<Rgb565> {
+    match s {
+        "n" => DecorationColor::None,
+        "t" => DecorationColor::TextColor,
+        v => DecorationColor::Custom(Rgb565::from_num(v.parse().expect("colour"))),
+    }
+}
+fn baseline_of(i: u32) -> Baseline {
+    match i {
+        0 => Baseline::Top,
+        1 => Baseline::Bottom,
+        2 => Baseline::Middle,
+        _ => Baseline::Alphabetic,
+    }
+}
+fn alignment_of(i: u32) -> Alignment {
+    match i {
+        0 => Alignment::Left,
+        1 => Alignment::Center,
+        _ => Alignment::Right,
+    }
+}
+/// the documented offset between the line position and the top of the line
+fn documented_offset(font: &MonoFont, bl: u32) -> i32 {
+    let h = font.character_size.height;
+    match bl {
+        0 => 0,
+        1 => h.saturating_sub(1) as i32,
+        2 => (h.saturating_sub(1) / 2) as i32,
+        _ => font.baseline as i32,
+    }
+}
+fn style_of<'a>(font: &'a MonoFont<'a>, tc: Option<Rgb565>, bg: Option<Rgb565>, ul: DecorationColor<Rgb565>, st: DecorationColor<Rgb565>) -> Style<'a> {
+    let mut s: Style<'a> = MonoTextStyleBuilder::new().font(font).build();
+    s.text_color = tc;
+    s.background_color = bg;
+    s.underline_color = ul;
+    s.strikethrough_color = st;
+    s
+}
+
+const P31: u64 = 2147483647;
+fn map_hash(m: &PMap) -> u64 {
+    let mut h: u64 = 0;
+    for ((y, x), c) in m.iter() {
+        let t = (((*y as i64 + (1 << 20)) as u64) * (1 << 21) + ((*x as i64 + (1 << 20)) as u64)) * 65536 + *c as u64 + 1;
+        h = (h * 1000003 + t % P31) % P31;
+    }
+    h
+}
+/// (min x, min y, max x, max y) of a pixel map
+fn extent(m: &PMap) -> Option<(i32, i32, i32, i32)> {
+    let mut e: Option<(i32, i32, i32, i32)> = None;
+    for ((y, x), _) in m.iter() {
+        e = Some(match e {
+            None => (*x, *y, *x, *y),
+            Some((a, b, c, d)) => (a.min(*x), b.min(*y), c.max(*x), d.max(*y)),
+        });
+    }
+    e
+}
+fn fmt_px(m: &PMap) -> String {
+    let ext = match extent(m) {
+        None => "-".to_string(),
+        Some((a, b, c, d)) => format!("{},{},{},{}", a, b, c - a + 1, d - b + 1),
+    };
+    format!("{}:{}:{}", m.len(), map_hash(m), ext)
+}
+fn shift_map(m: &PMap, d: Point) -> PMap {
+    m.iter().map(|((y, x), c)| ((*y + d.y, *x + d.x), *c)).collect()
+}
+
+/// everything a layout op carries besides the font
+struct Lay {
+    bl: u32,
+    al: u32,
+    lh: LineHeight,
+    tc: Option<Rgb565>,
+    bg: Option<Rgb565>,
+    ul: DecorationColor<Rgb565>,
+    st: DecorationColor<Rgb565>,
+    pos: Point,
+    text: String,
+}
+impl Lay {
+    fn parse(t: &mut Toks) -> Lay {
+        let bl = t.u32();
+        let al = t.u32();
+        let lhk = t.str();
+        let lhv = t.u32();
+        let lh = if lhk == "p" { LineHeight::Pixels(lhv) } else { LineHeight::Percent(lhv) };
+        let (tc, bg, ul, st) = (opt_col(t.str()), opt_col(t.str()), deco(t.str()), deco(t.str()));
+        let pos = t.point();
+        let text: String = t.u32_list().into_iter().map(char_of).collect();
+        Lay { bl, al, lh, tc, bg, ul, st, pos, text }
+    }
+    fn ts(&self) -> TextStyle {
+        TextStyleBuilder::new().alignment(alignment_of(self.al)).baseline(baseline_of(self.bl)).line_height(self.lh).build()
+    }
+    /// is the picture determined by the layout alone (no pixel depends on a glyph bitmap)?
+    fn determined(&self) -> bool {
+        (self.tc.is_some() && self.tc == self.bg) || (self.tc.is_none() && self.bg.is_none())
+    }
+}
+
+fn draw_r1(text: &Text<Style>) -> (PMap, Point) {
+    let mut r = R1::<Rgb565>::unbounded();
+    let n = text.draw(&mut r).expect("recording target does not fail");
+    (r.rec.map, n)
+}
+fn draw_r2(text: &Text<Style>) -> (PMap, Point) {
+    let mut r = R2::<Rgb565>::unbounded();
+    let n = text.draw(&mut r).expect("recording target does not fail");
+    (r.rec.map, n)
+}
+
+/// The custom-font observation: neither text nor background colour, spacing > 0.
+fn trailing_spacing_case(font: &MonoFont, l: &Lay) -> bool {
+    l.tc.is_none() && l.bg.is_none() && font.character_spacing > 0
+}
+
+/// All oracles of a laid-out text; returns (picture on R1, returned position, bounding box).
+fn check_text(ctx: &mut Ctx, op: &str, font: &MonoFont, builtin: bool, l: &Lay) -> (PMap, Point, Rectangle) {
+    let style = style_of(font, l.tc, l.bg, l.ul, l.st);
+    let ts = l.ts();
+    let text = Text::with_text_style(&l.text, l.pos, style, ts);
+    let (m1, n1) = draw_r1(&text);
+    let (m2, n2) = draw_r2(&text);
+    let bb = text.bounding_box();
+    let (cw, ch, sp) = (font.character_size.width as i32, font.character_size.height as i32, font.character_spacing as i32);
+    let obs_case = trailing_spacing_case(font, l);
+    if !m1.is_empty() {
+        ctx.nontrivial(op);
+    }
+
+    // ---- distribution ------------------------------------------------------------------------------
+    let segs: Vec<&str> = l.text.split('\n').collect();
+    ctx.count(&format!("lines:{}", segs.len().min(6)));
+    ctx.count(&format!("align:{}", ["left", "center", "right"][l.al.min(2) as usize]));
+    ctx.count(&format!("baseline:{}", ["top", "bottom", "middle", "alphabetic"][l.bl.min(3) as usize]));
+    ctx.count(match l.lh {
+        LineHeight::Pixels(_) => "line-height:pixels",
+        LineHeight::Percent(_) => "line-height:percent",
+    });
+    ctx.count(&format!(
+        "colours:text-{}:bg-{}:ul-{}:st-{}",
+        if l.tc.is_some() { "set" } else { "none" },
+        if l.bg.is_some() { "set" } else { "none" },
+        if l.ul.is_none() { "n" } else if l.ul.is_text_color() { "t" } else { "c" },
+        if l.st.is_none() { "n" } else if l.st.is_text_color() { "t" } else { "c" },
+    ));
+    ctx.count(if builtin { "font:builtin" } else { "font:custom-with-spacing" });
+    if l.text.is_empty() {
+        ctx.count("text:empty");
+    }
+    if segs.iter().any(|s| s.is_empty()) && segs.len() > 1 {
+        ctx.count("text:has-empty-line");
+    }
+    if l.text.ends_with('\n') {
+        ctx.count("text:trailing-newline");
+    }
+    if l.text.contains("\r\n") {
+        ctx.count("text:crlf");
+    }
+    if l.text.contains('\r') && !l.text.contains("\r\n") {
+        ctx.count("text:lone-cr");
+    }
+    if l.text.chars().any(|c| (c as u32) > 0xffff) {
+        ctx.count("text:non-bmp");
+    }
+
+    // ---- C01: both drawing paths ---------------------------------------------------------------------
+    ctx.expect(m1 == m2, "C01:text-r1-picture-ne-r2", || format!("{} vs {} pixels", m1.len(), m2.len()));
+    ctx.expect(n1 == n2, "C01:text-r1-return-ne-r2", || format!("{:?} vs {:?}", n1, n2));
+
+    // ---- C15 ------------------------------------------------------------------------------------------
+    let lh_abs: i32 = match l.lh {
+        LineHeight::Pixels(p) => p as i32,
+        LineHeight::Percent(q) => (ch as i64 * q as i64 / 100) as i32,
+    };
+    let off = documented_offset(font, l.bl);
+    let baseline = baseline_of(l.bl);
+    let both = style_of(font, Some(Rgb565::from_num(1)), Some(Rgb565::from_num(2)), DecorationColor::None, DecorationColor::None);
+    // (b) the segments as separate texts, line_height apart
+    let mut acc = R1::<Rgb565>::unbounded();
+    let mut last = l.pos;
+    let mut line_boxes: Vec<Rectangle> = Vec::new();
+    for (i, seg) in segs.iter().enumerate() {
+        let p = Point::new(l.pos.x, l.pos.y + i as i32 * lh_abs);
+        let single = Text::with_text_style(seg, p, style, ts);
+        last = single.draw(&mut acc).expect("no fault");
+
+        // the line as the property sees it: the segment without the `\r` of a `\r\n`
+        let line = seg.strip_suffix('\r').unwrap_or(seg);
+        let n = line.chars().count() as i32;
+        let width = if n == 0 { 0 } else { n * cw + (n - 1) * sp };
+
+        // (d) alignment: extent of the line drawn with both colours
+        let (mb, _) = draw_r1(&Text::with_text_style(seg, p, both, ts));
+        match extent(&mb) {
+            Some((x0, y0, x1, y1)) => {
+                ctx.expect(x1 - x0 + 1 == width && y1 - y0 + 1 == ch, "C15:line-extent-not-n-cells", || format!("{}x{} expected {}x{}", x1 - x0 + 1, y1 - y0 + 1, width, ch));
+                match l.al {
+                    0 => ctx.expect(x0 == l.pos.x, "C15:align-left-line-does-not-start-at-x", || format!("starts at {} x={}", x0, l.pos.x)),
+                    2 => ctx.expect(x1 == l.pos.x, "C15:align-right-line-does-not-end-at-x", || format!("ends at {} x={}", x1, l.pos.x)),
+                    _ => ctx.expect((x0 + x1 - 2 * l.pos.x).abs() <= 1, "C15:align-center-off-by-more-than-half-a-pixel", || format!("{}..={} x={}", x0, x1, l.pos.x)),
+                }
+                // (e) baseline: top of the line
+                ctx.expect(y0 == p.y - off, "C15:baseline-shift-not-documented-offset", || format!("top {} expected {}", y0, p.y - off));
+            }
+            None => ctx.expect(width == 0 || ch == 0, "C15:non-empty-line-draws-nothing", || format!("width {}", width)),
+        }
+        // the same through the box of the line in the real style
+        let sbb = single.bounding_box();
+        line_boxes.push(sbb);
+        if sbb.size.width > 0 && sbb.size.height > 0 {
+            let (x0, x1) = (sbb.top_left.x, sbb.top_left.x + sbb.size.width as i32 - 1);
+            let ok = match l.al {
+                0 => x0 == l.pos.x,
+                2 => x1 == l.pos.x,
+                _ => (x0 + x1 - 2 * l.pos.x).abs() <= 1,
+            };
+            ctx.expect(ok && sbb.size.width as i32 == width, "C15:line-box-not-aligned", || format!("{} x={} width {}", fmt_rect(&sbb), l.pos.x, width));
+            ctx.expect(sbb.top_left.y == p.y - off, "C15:baseline-shift-not-documented-offset", || format!("box top {} expected {}", sbb.top_left.y, p.y - off));
+        }
+        // (a) draw_string returns what measure_string predicts, at the position the alignment rule gives
+        let lp = Point::new(
+            match l.al {
+                0 => l.pos.x,
+                2 => l.pos.x - (width - 1),
+                _ => l.pos.x - (width - 1) / 2,
+            },
+            p.y,
+        );
+        let predicted = style.measure_string(line, lp, baseline).next_position;
+        let mut scratch = R1::<Rgb565>::unbounded();
+        let returned = style.draw_string(line, lp, baseline, &mut scratch).expect("no fault");
+        if obs_case && n > 0 {
+            ctx.count("obs:transparent-text-draw-string-returns-trailing-spacing");
+            ctx.expect(returned == predicted + Point::new(sp, 0), "C15:draw-return-ne-measure-next", || format!("custom font: {:?} vs {:?}", returned, predicted));
+        } else {
+            ctx.expect(returned == predicted, "C15:draw-return-ne-measure-next", || format!("draw_string {:?} measure_string {:?}", returned, predicted));
+            if i + 1 == segs.len() {
+                ctx.expect(n1 == predicted, "C15:draw-return-ne-measure-next", || format!("Text::draw {:?} measure_string of the last line {:?}", n1, predicted));
+            }
+        }
+    }
+    ctx.expect(acc.rec.map == m1, "C15:multiline-picture-ne-separate-lines", || format!("{} vs {} pixels", m1.len(), acc.rec.map.len()));
+    ctx.expect(last == n1, "C15:multiline-return-ne-last-line", || format!("{:?} vs {:?}", n1, last));
+    // (c) CR LF == LF
+    if l.text.contains("\r\n") {
+        if l.text.contains("\r\r\n") {
+            // replacing would create a new CR LF out of the preceding CR: not the property's comparison
+            ctx.count("obs:cr-cr-lf-not-compared");
+        } else {
+            let lf = l.text.replace("\r\n", "\n");
+            let t2 = Text::with_text_style(&lf, l.pos, style, ts);
+            let (m3, n3) = draw_r1(&t2);
+            let bb3 = t2.bounding_box();
+            ctx.expect(m3 == m1, "C15:crlf-picture-ne-lf", || format!("{} vs {} pixels", m1.len(), m3.len()));
+            ctx.expect(n3 == n1, "C15:crlf-return-ne-lf", || format!("{:?} vs {:?}", n1, n3));
+            ctx.expect(bb3 == bb, "C15:crlf-box-ne-lf", || format!("{} vs {}", fmt_rect(&bb), fmt_rect(&bb3)));
+        }
+    }
+    // ---- C02: box contains the picture; transparent draws nothing -----------------------------------------
+    let outside: Vec<(i32, i32)> = m1.keys().filter(|(y, x)| !bb.contains(Point::new(*x, *y))).cloned().collect();
+    if !outside.is_empty() && obs_case && !builtin {
+        // the only admissible mechanism: decoration columns over the trailing spacing of a line
+        let ok = outside.iter().all(|(y, x)| {
+            line_boxes.iter().any(|b| {
+                let right = b.top_left.x + b.size.width as i32;
+                b.size.width > 0 && *x >= right && *x < right + sp && *y >= b.top_left.y && *y < b.top_left.y + (b.size.height as i32).max(ch)
+            })
+        });
+        ctx.count("obs:transparent-text-decoration-spans-trailing-spacing");
+        ctx.expect(ok, "C02:text-pixel-outside-bbox", || format!("{} pixels outside {}", outside.len(), fmt_rect(&bb)));
+    } else {
+        ctx.expect(outside.is_empty(), "C02:text-pixel-outside-bbox", || {
+            format!("{} pixels outside {} e.g. ({},{})", outside.len(), fmt_rect(&bb), outside[0].1, outside[0].0)
+        });
+    }
+    if style.is_transparent() {
+        ctx.count("style:transparent");
+        ctx.expect(m1.is_empty() && m2.is_empty(), "C02:text-transparent-style-draws", || format!("{} pixels", m1.len()));
+    }
+    (m1, n1, bb)
+}
+
+// ---------------------------------------------------------------------------------------------------------
+// generator
+// ---------------------------------------------------------------------------------------------------------
+const STRINGS: [&str; 42] = [
+    "", "A", "AB", "Hello", "\n", "A\n", "\nA", "A\nB", "AB\nC", "A\n\nBC", "AB\n\n", "\n\n", "A\r\nB", "AB\r\nC", "\r\n",
+    "A\r\n", "\r\nA", "A\r\n\r\nB", "A\rB", "\r", "A\r", "\rA", "A\r\r\nB", "A\n\rB", "A\nB\r", "AB\r\nCDE\nF\r\n", "\u{e9}t\u{e9}",
+    "\u{1F600}", "a\u{1F600}b\n\u{0}", "\t", "\u{7f}x", "The quick\nbrown fox\njumps", "iiii\nWWWWWWWW\nii", "A B", " ", "  \n ",
+    "x\ny\nz\nw\nv", "0123456789ABCDEFGHIJ", "\u{ff71}\u{ff72}\n\u{a5}", "\u{a0}|\r\n|", "long line here\r\nshort\r\n\r\nend", "q\u{10ffff}\u{d7ff}",
+];
+/// (tc, bg, ul, st)
+const COLOURS: [(&str, &str, &str, &str); 10] = [
+    ("65535", "-", "n", "n"),
+    ("2016", "63488", "n", "n"),
+    ("31", "31", "1365", "2730"),
+    ("31", "31", "t", "n"),
+    ("-", "31", "t", "n"),
+    ("-", "-", "1365", "7"),
+    ("-", "-", "n", "n"),
+    ("65535", "-", "t", "t"),
+    ("992", "992", "n", "n"),
+    ("2016", "63488", "1365", "t"),
+];
+const LINE_HEIGHTS: [(&str, u32); 7] = [("c", 100), ("c", 150), ("c", 37), ("p", 0), ("p", 25), ("p", 7), ("c", 0)];
+const POSITIONS: [(i32, i32); 2] = [(0, 0), (-17, 23)];
+const CUSTOM: [&str; 6] = [
+    "c:5:7:1:5:8:1:3:1",
+    "c:3:4:2:3:4:2:2:1",
+    "c:8:8:3:6:6:1:4:1",
+    "c:1:1:1:0:1:1:0:1",
+    "c:6:3:2:2:5:2:1:1",
+    "c:4:9:1:7:3:2:4:2",
+];
+
+fn fid_of(module: &str, name: &str) -> usize {
+    FONTS.iter().position(|f| f.0 == module && f.1 == name).expect("font in table")
+}
+fn cps_of(s: &str) -> String {
+    fmt_list(s.chars().map(|c| c as u32))
+}
+fn quick_fonts() -> Vec<String> {
+    let mut v: Vec<String> = [
+        ("ascii", "FONT_4X6"),
+        ("ascii", "FONT_6X10"),
+        ("ascii", "FONT_9X15"),
+        ("ascii", "FONT_10X20"),
+        ("iso_8859_1", "FONT_6X13"),
+        ("jis_x0201", "FONT_9X18"),
+        ("iso_8859_15", "FONT_5X8"),
+        ("ascii", "FONT_7X13_BOLD"),
+    ]
+    .iter()
+    .map(|(m, n)| format!("b:{}", fid_of(m, n)))
+    .collect();
+    v.extend(CUSTOM.iter().map(|s| s.to_string()));
+    v
+}
+fn random_string(rng: &mut Rng) -> String {
+    let alphabet: [&str; 16] = ["A", "b", "W", "i", " ", "\n", "\n", "\r\n", "\r", "\u{e9}", "\u{1F600}", "?", "0", "\u{0}", "\u{ff71}", "~"];
+    let len = rng.below(25) as usize;
+    let mut s = String::new();
+    for _ in 0..len {
+        s.push_str(*rng.pick(&alphabet[..]));
+    }
+    s
+}
+fn layout_tokens(font: &str, bl: u64, al: u64, lh: (&str, u32), col: (&str, &str, &str, &str), pos: (i32, i32), s: &str) -> String {
+    format!("{} {} {} {} {} {} {} {} {} {} {} {}", font, bl, al, lh.0, lh.1, col.0, col.1, col.2, col.3, pos.0, pos.1, cps_of(s))
+}
 
 impl Module for M {
     fn name(&self) -> &'static str {
         "text"
     }
     fn rule(&self) -> &'static str {
-        "not built yet"
+        "ops: quick 8 built-in fonts (4X6, 6X10, 9X15 underline inside the cell, 10X20, iso_8859_1, iso_8859_15, \
+         jis_x0201, bold) + 6 harness-built fonts with spacing 1..=3 x 42 strings (empty, single/multi-line, empty \
+         lines, trailing newline, CR LF variants, lone CR, CR CR LF, unmapped, non-BMP) x 3 alignments x 4 baselines \
+         with line height (7: percent 100/150/37/0, pixels 0/25/7), colour/decoration option (10: text, both, solid \
+         + custom decorations, background only, decorations only, transparent, TextColor decorations) and position \
+         (2) rotating, plus seeded random parameter/string combinations; thorough: all fonts of three charsets, 500 \
+         random strings. measure/chain ops over the same fonts. A layout op is non-trivial when at least one pixel is \
+         drawn; distinct = distinct op text."
     }
-    fn generate(&self, _pid: &str, _tier: Tier, _rng: &mut Rng, _emit: &mut dyn FnMut(String)) {}
-    fn execute(&self, op: &str, _ctx: &mut Ctx) -> String {
-        panic!("unknown op {}", op)
+
+    fn generate(&self, pid: &str, tier: Tier, rng: &mut Rng, emit: &mut dyn FnMut(String)) {
+        let thorough = tier == Tier::Thorough;
+        let mut fonts = quick_fonts();
+        if thorough {
+            fonts.clear();
+            for (i, f) in FONTS.iter().enumerate() {
+                if f.0 == "ascii" || f.0 == "iso_8859_1" || f.0 == "jis_x0201" {
+                    fonts.push(format!("b:{}", i));
+                }
+            }
+            for (i, f) in FONTS.iter().enumerate() {
+                // every charset once for the other eleven
+                if !(f.0 == "ascii" || f.0 == "iso_8859_1" || f.0 == "jis_x0201") && f.1 == "FONT_9X15" {
+                    fonts.push(format!("b:{}", i));
+                }
+            }
+            fonts.extend(CUSTOM.iter().map(|s| s.to_string()));
+        }
+        let mut strings: Vec<String> = STRINGS.iter().map(|s| s.to_string()).collect();
+        for _ in 0..(if thorough { 500 } else { 30 }) {
+            strings.push(random_string(rng));
+        }
+        let mut combo: usize = 0;
+        match pid {
+            "C15" | "C02" | "C01" => {
+                // C15: the full grid; C02 / C01: every third combination of the same grid
+                let stride = if pid == "C15" { 1 } else { 3 };
+                for font in &fonts {
+                    for s in &strings {
+                        for al in 0..3u64 {
+                            for bl in 0..4u64 {
+                                combo += 1;
+                                if combo % stride != 0 {
+                                    continue;
+                                }
+                                let lh = LINE_HEIGHTS[combo % LINE_HEIGHTS.len()];
+                                let col = COLOURS[(combo / 7) % COLOURS.len()];
+                                let pos = POSITIONS[(combo / 3) % 2];
+                                emit(format!("text.layout {}", layout_tokens(font, bl, al, lh, col, pos, s)));
+                            }
+                        }
+                    }
+                }
+                // seeded random combinations
+                for _ in 0..(if thorough { 20000 } else { 2500 } / stride) {
+                    let font = rng.pick(&fonts).clone();
+                    let s = if rng.chance(1, 2) { rng.pick(&strings).clone() } else { random_string(rng) };
+                    let lh = if rng.chance(1, 2) { *rng.pick(&LINE_HEIGHTS) } else if rng.chance(1, 2) { ("p", rng.below(40) as u32) } else { ("c", rng.below(300) as u32) };
+                    let col = *rng.pick(&COLOURS);
+                    let pos = (rng.range(-300, 300) as i32, rng.range(-300, 300) as i32);
+                    emit(format!("text.layout {}", layout_tokens(&font, rng.below(4), rng.below(3), lh, col, pos, &s)));
+                }
+                if pid == "C15" {
+                    for font in &fonts {
+                        for s in &strings {
+                            combo += 1;
+                            let col = COLOURS[combo % COLOURS.len()];
+                            let pos = POSITIONS[combo % 2];
+                            emit(format!("text.measure {} {} {} {} {} {} {} {} {}", font, combo % 4, col.0, col.1, col.2, col.3, pos.0, pos.1, cps_of(s)));
+                        }
+                    }
+                    // chaining: every split point of some strings, random pairs
+                    let chain_strings = ["AB", "Hello World", "A\nBC", "ab\n", "\ncd", "A\r", "xy\r\nz", "", "\u{1F600}\u{e9}"];
+                    for font in &fonts {
+                        for s in chain_strings {
+                            let cs: Vec<char> = s.chars().collect();
+                            for k in 0..=cs.len() {
+                                combo += 1;
+                                let col = COLOURS[combo % COLOURS.len()];
+                                let al = if combo % 5 == 0 { 1 + combo % 2 } else { 0 };
+                                let s1: String = cs[..k].iter().collect();
+                                let s2: String = cs[k..].iter().collect();
+                                emit(format!(
+                                    "text.chain {} {} {} {} {} {} {} {} {} {} {}",
+                                    font, combo % 4, al, col.0, col.1, col.2, col.3, rng.range(-20, 20), rng.range(-20, 20), cps_of(&s1), cps_of(&s2)
+                                ));
+                            }
+                        }
+                    }
+                    for _ in 0..(if thorough { 3000 } else { 400 }) {
+                        let font = rng.pick(&fonts).clone();
+                        let col = *rng.pick(&COLOURS);
+                        let (s1, s2) = (random_string(rng), random_string(rng));
+                        emit(format!(
+                            "text.chain {} {} {} {} {} {} {} {} {} {} {}",
+                            font, rng.below(4), if rng.chance(3, 4) { 0 } else { rng.below(3) }, col.0, col.1, col.2, col.3, rng.range(-50, 50), rng.range(-50, 50), cps_of(&s1), cps_of(&s2)
+                        ));
+                    }
+                }
+            }
+            "C07" => {
+                let offsets: [(i32, i32); 8] = [(1, 0), (-1, 0), (0, 1), (0, -1), (-40, -40), (13, -29), (0, 0), (-7, 250)];
+                for font in &fonts {
+                    for s in &strings {
+                        combo += 1;
+                        let lh = LINE_HEIGHTS[combo % LINE_HEIGHTS.len()];
+                        let col = COLOURS[(combo / 7) % COLOURS.len()];
+                        let pos = if combo % 3 == 0 { (rng.range(-30, 30) as i32, rng.range(-30, 30) as i32) } else { POSITIONS[combo % 2] };
+                        let d = offsets[combo % offsets.len()];
+                        emit(format!("text.tr {} {} {}", layout_tokens(font, (combo % 4) as u64, ((combo / 4) % 3) as u64, lh, col, pos, s), d.0, d.1));
+                    }
+                }
+                for _ in 0..(if thorough { 5000 } else { 600 }) {
+                    let font = rng.pick(&fonts).clone();
+                    let s = if rng.chance(1, 2) { rng.pick(&strings).clone() } else { random_string(rng) };
+                    let lh = *rng.pick(&LINE_HEIGHTS);
+                    let col = *rng.pick(&COLOURS);
+                    let pos = (rng.range(-100, 100) as i32, rng.range(-100, 100) as i32);
+                    emit(format!(
+                        "text.tr {} {} {}",
+                        layout_tokens(&font, rng.below(4), rng.below(3), lh, col, pos, &s),
+                        rng.range(-200, 200),
+                        rng.range(-200, 200)
+                    ));
+                }
+            }
+            _ => {}
+        }
+    }
+
+    fn execute(&self, op: &str, ctx: &mut Ctx) -> String {
+        let mut t = Toks::new(op);
+        let stream = t.str();
+        match stream {
+            "text.layout" | "text.tr" => {
+                let spec = t.str();
+                let l = Lay::parse(&mut t);
+                let d = if stream == "text.tr" { Some(t.point()) } else { None };
+                let r = with_font(spec, |font, builtin| {
+                    ctx.count(if d.is_some() { "tr" } else { "layout" });
+                    let (m, n, bb) = check_text(ctx, op, font, builtin, &l);
+                    match d {
+                        None => format!("next={} bb={} px={}", fmt_pt(n), fmt_rect(&bb), if l.determined() { fmt_px(&m) } else { "-".into() }),
+                        Some(d) => {
+                            // ---- C07 ---------------------------------------------------------------------
+                            let style = style_of(font, l.tc, l.bg, l.ul, l.st);
+                            let text = Text::with_text_style(&l.text, l.pos, style, l.ts());
+                            let moved = text.translate(d);
+                            let mut mutated = text;
+                            mutated.translate_mut(d);
+                            let same = mutated == moved;
+                            ctx.expect(same, "C07:text-translate-mut-ne-translate", || format!("{:?} vs {:?}", mutated.position, moved.position));
+                            ctx.expect(moved.position == l.pos + d && moved.text == l.text && moved.text_style == l.ts() && moved.character_style == style,
+                                "C07:text-translate-changes-more-than-position", || format!("{:?}", moved.position));
+                            let (mm, mn) = draw_r1(&moved);
+                            let mbb = moved.bounding_box();
+                            ctx.expect(mm == shift_map(&m, d), "C07:text-picture-not-shifted", || format!("{} vs {} pixels", mm.len(), m.len()));
+                            ctx.expect(mn == n + d, "C07:text-return-not-shifted", || format!("{:?} vs {:?} + {:?}", mn, n, d));
+                            ctx.expect(mbb == bb.translate(d), "C07:text-box-not-shifted", || format!("{} vs {} moved", fmt_rect(&mbb), fmt_rect(&bb)));
+                            format!(
+                                "next={} bb={} px={} mut={}",
+                                fmt_pt(mn),
+                                fmt_rect(&mbb),
+                                if l.determined() { fmt_px(&mm) } else { "-".into() },
+                                if same { "same" } else { "diff" }
+                            )
+                        }
+                    }
+                });
+                r.unwrap_or_else(|e| e)
+            }
+            "text.measure" => {
+                let spec = t.str();
+                let bl = t.u32();
+                let (tc, bg, ul, st) = (opt_col(t.str()), opt_col(t.str()), deco(t.str()), deco(t.str()));
+                let pos = t.point();
+                let text: String = t.u32_list().into_iter().map(char_of).collect();
+                let r = with_font(spec, |font, builtin| {
+                    let style = style_of(font, tc, bg, ul, st);
+                    let m = style.measure_string(&text, pos, baseline_of(bl));
+                    let mut r1 = R1::<Rgb565>::unbounded();
+                    let dn = style.draw_string(&text, pos, baseline_of(bl), &mut r1).expect("no fault");
+                    ctx.count("measure");
+                    if !text.is_empty() {
+                        ctx.nontrivial(op);
+                    }
+                    let n = text.chars().count() as i32;
+                    let sp = font.character_spacing as i32;
+                    if tc.is_none() && bg.is_none() && sp > 0 && n > 0 {
+                        ctx.count("obs:transparent-text-draw-string-returns-trailing-spacing");
+                        ctx.expect(!builtin && dn == m.next_position + Point::new(sp, 0), "C15:draw-return-ne-measure-next", || format!("{:?} vs {:?}", dn, m.next_position));
+                    } else {
+                        ctx.expect(dn == m.next_position, "C15:draw-return-ne-measure-next", || format!("draw_string {:?} measure_string {:?}", dn, m.next_position));
+                    }
+                    // every pixel of the line inside the measured box
+                    let out = r1.rec.map.keys().filter(|(y, x)| !m.bounding_box.contains(Point::new(*x, *y))).count();
+                    if !(tc.is_none() && bg.is_none() && sp > 0) {
+                        ctx.expect(out == 0, "C02:line-pixel-outside-measured-box", || format!("{} pixels outside {}", out, fmt_rect(&m.bounding_box)));
+                    }
+                    format!("bb={} mnext={} dnext={} lh={}", fmt_rect(&m.bounding_box), fmt_pt(m.next_position), fmt_pt(dn), style.line_height())
+                });
+                r.unwrap_or_else(|e| e)
+            }
+            "text.chain" => {
+                let spec = t.str();
+                let bl = t.u32();
+                let al = t.u32();
+                let (tc, bg, ul, st) = (opt_col(t.str()), opt_col(t.str()), deco(t.str()), deco(t.str()));
+                let pos = t.point();
+                let s1: String = t.u32_list().into_iter().map(char_of).collect();
+                let s2: String = t.u32_list().into_iter().map(char_of).collect();
+                let r = with_font(spec, |font, _builtin| {
+                    let style = style_of(font, tc, bg, ul, st);
+                    let ts = TextStyleBuilder::new().alignment(alignment_of(al)).baseline(baseline_of(bl)).build();
+                    let mut chained = R1::<Rgb565>::unbounded();
+                    let n1 = Text::with_text_style(&s1, pos, style, ts).draw(&mut chained).expect("no fault");
+                    let n2 = Text::with_text_style(&s2, n1, style, ts).draw(&mut chained).expect("no fault");
+                    let s12 = format!("{}{}", s1, s2);
+                    let mut whole = R1::<Rgb565>::unbounded();
+                    let n12 = Text::with_text_style(&s12, pos, style, ts).draw(&mut whole).expect("no fault");
+                    ctx.count("chain");
+                    // the property: fonts without spacing; a left-aligned continuation on the same line
+                    // (s2 without newline; the last line of s1 must not end in a CR that is stripped only
+                    // when it is last)
+                    let last1 = s1.rsplit('\n').next().unwrap_or("");
+                    let applicable = font.character_spacing == 0 && al == 0 && !s2.contains('\n') && !last1.ends_with('\r');
+                    if applicable {
+                        ctx.count("chain:applicable");
+                        if !whole.rec.map.is_empty() {
+                            ctx.nontrivial(op);
+                        }
+                        ctx.expect(n2 == n12, "C15:chaining-return-differs", || format!("{:?} vs {:?}", n2, n12));
+                        ctx.expect(chained.rec.map == whole.rec.map, "C15:chaining-picture-differs", || format!("{} vs {} pixels", chained.rec.map.len(), whole.rec.map.len()));
+                    } else {
+                        ctx.count(if font.character_spacing != 0 {
+                            "chain:not-applicable-font-with-spacing"
+                        } else if al != 0 {
+                            "chain:not-applicable-center-or-right"
+                        } else if s2.contains('\n') {
+                            "chain:not-applicable-continuation-has-newline"
+                        } else {
+                            "chain:not-applicable-cr-before-joint"
+                        });
+                        if n2 != n12 || chained.rec.map != whole.rec.map {
+                            ctx.count("chain:not-applicable-and-differs");
+                        }
+                    }
+                    format!("n1={} n2={} n12={}", fmt_pt(n1), fmt_pt(n2), fmt_pt(n12))
+                });
+                r.unwrap_or_else(|e| e)
+            }
+            _ => panic!("unknown op {}", op),
+        }
     }
 }
